@@ -3,6 +3,7 @@
 -/
 import PjVerif.Lemmas.SchedC07
 import PjVerif.Lemmas.PassSrc
+import PjVerif.Lemmas.PassSrcBwd
 namespace Pj
 
 /-- forward: summary start/end/estimate/spent are the roll-ups of the children whatever the user had put there;
@@ -56,5 +57,25 @@ theorem C07_source_forward_pass (env : Env) (ms : Uid → Bool) (wfuel : Nat)
     PassSrc.interpFwdPass env wfuel (PassSrc.calRef σ.res) fuel' (PassSrc.encS env ms σ) t minDate =
       (fwdPass env fuel stk σ t minDate).map (PassSrc.encS env ms) :=
   PassSrc.interpFwdPass_eq env ms wfuel hms hw fuel fuel' hle stk σ t minDate hne
+
+/-- the translated `BackwardScheduler.__backward_pass` (Extracted/PassSrc.lean), interpreted on the encoding of a model state,
+    is the encoding of the model's `bwdPass` - unless the model run ends in RecursionError (see `*_source_forward_pass`).
+    `encSB` is `encS` with the tasks' successor lists. -/
+theorem C07_source_backward_pass (env : Env) (ms : Uid → Bool) (wfuel : Nat)
+    (hms : ∀ u, (env.info u).milestone = (ms u && (env.info u).children.isEmpty))
+    (hw : Extracted.bwdShiftMaxSteps < wfuel) (fuel fuel' : Nat) (hle : fuel ≤ fuel') (stk : List Uid) (σ : SS)
+    (t : Uid) (minDate : Time) (hne : bwdPass env fuel stk σ t minDate ≠ .error (.crash .recursion)) :
+    PassSrcBwd.interpBwdPass env wfuel (PassSrc.calRef σ.res) fuel' (PassSrcBwd.encSB env ms σ) t minDate =
+      (bwdPass env fuel stk σ t minDate).map (PassSrcBwd.encSB env ms) :=
+  PassSrcBwd.interpBwdPass_eq env ms wfuel hms hw fuel fuel' hle stk σ t minDate hne
+
+/-- the translated `__prepare_tasks` of both schedulers clear exactly what the model's `prepare` clears (the dates, estimate and
+    spent a user had put on a summary task): `mem` = the members (`project.tasks`), `w` the WBS object -/
+theorem C07_source_prepare (env : Env) (ms : Uid → Bool) (σ : SS) (w : Nat) (mem : List Uid) (hw : w ∉ mem) :
+    PassSrcBwd.interpPrepare Extracted.src_Fwd_prepare (PassSrcBwd.wbsState (PassSrc.encS env ms σ) w mem) w =
+      .ok (PassSrcBwd.wbsState (PassSrc.encS env ms { σ with f := prepare env σ.f mem }) w mem) ∧
+    PassSrcBwd.interpPrepare Extracted.src_Bwd_prepare (PassSrcBwd.wbsState (PassSrcBwd.encSB env ms σ) w mem) w =
+      .ok (PassSrcBwd.wbsState (PassSrcBwd.encSB env ms { σ with f := prepare env σ.f mem }) w mem) :=
+  ⟨PassSrcBwd.interpFwdPrepare_eq env ms σ w mem hw, PassSrcBwd.interpBwdPrepare_eq env ms σ w mem hw⟩
 
 end Pj
